@@ -31,7 +31,7 @@ pub fn plan(tier: &str) -> u64 {
     match tier {
         "thorough" => SWEEP_RUNS + 2_000_000,
         "selfcheck" => 20_000,
-        _ => 20_000,
+        _ => 60_000,
     }
 }
 
